@@ -63,11 +63,18 @@ const (
 
 	hintSafeKey = "&safe"
 
-	fmtErrReturn            = "if err != nil {\n\treturn err\n}"
-	fmtAddSizeToAt          = "{\n\ttmp := (%ASGN)\n\tat += tmp.Size()\n}\n"
-	fmtAdd4PlusLenToAt      = "at += 4 + len(%ASGN)"
-	fmtAddSizeToBodyLen     = "{\n\ttmp := (%ASGN)\n\tbodyLen += tmp.Size()\n}\n"
-	fmtAdd4PlusLenToBodyLen = "bodyLen += 4 + len(%ASGN)"
+	fmtErrReturn   = "if err != nil {\n\treturn err\n}"
+	fmtAddSizeToAt = "{\n\ttmp := (%ASGN)\n\tat += tmp.Size()\n}\n"
+	// messages and unions carry their length on the wire. A reader must step over them
+	// by that length, not by the size of the fields it understood: a newer writer may
+	// have sent fields this version does not know (or has deprecated).
+	fmtAddMessageWireLenToAt     = "at += 4 + int(iohelp.ReadUint32Bytes(buf[at:]))\n"
+	fmtAddUnionWireLenToAt       = "at += 5 + int(iohelp.ReadUint32Bytes(buf[at:]))\n"
+	fmtAddMessageWireLenToAtSafe = "if len(buf[at:]) < 4+int(iohelp.ReadUint32Bytes(buf[at:])) {\n\treturn io.ErrUnexpectedEOF\n}\n" + fmtAddMessageWireLenToAt
+	fmtAddUnionWireLenToAtSafe   = "if len(buf[at:]) < 5+int(iohelp.ReadUint32Bytes(buf[at:])) {\n\treturn io.ErrUnexpectedEOF\n}\n" + fmtAddUnionWireLenToAt
+	fmtAdd4PlusLenToAt           = "at += 4 + len(%ASGN)"
+	fmtAddSizeToBodyLen          = "{\n\ttmp := (%ASGN)\n\tbodyLen += tmp.Size()\n}\n"
+	fmtAdd4PlusLenToBodyLen      = "bodyLen += 4 + len(%ASGN)"
 
 	fmtMakeType           = "(%RECV), err = Make%TYPE(r)\n" + fmtErrReturn
 	fmtMakeNamespacedType = "(%RECV), err = %NAMESPACE.Make%BARETYPE(r)\n" + fmtErrReturn
@@ -339,8 +346,8 @@ func (f File) typeByteReaders(gs GenerateSettings) map[string]string {
 		out[st.Name+hintSafeKey] = makeFormat(st.Namespace, gs) + fmtErrReturn + "\n" + fmtAddSizeToAt
 	}
 	for _, msg := range f.Messages {
-		out[msg.Name] = mustMakeFormat(msg.Namespace, gs) + fmtAddSizeToAt
-		out[msg.Name+hintSafeKey] = makeFormat(msg.Namespace, gs) + fmtErrReturn + "\n" + fmtAddSizeToAt
+		out[msg.Name] = mustMakeFormat(msg.Namespace, gs) + fmtAddMessageWireLenToAt
+		out[msg.Name+hintSafeKey] = makeFormat(msg.Namespace, gs) + fmtErrReturn + "\n" + fmtAddMessageWireLenToAtSafe
 	}
 	for _, union := range f.Unions {
 		uout := union.typeByteReaders(gs)
@@ -353,8 +360,8 @@ func (f File) typeByteReaders(gs GenerateSettings) map[string]string {
 
 func (u Union) typeByteReaders(settings GenerateSettings) map[string]string {
 	out := map[string]string{}
-	out[u.Name] = mustMakeFormat(u.Namespace, settings) + fmtAddSizeToAt
-	out[u.Name+hintSafeKey] = makeFormat(u.Namespace, settings) + fmtErrReturn + "\n" + fmtAddSizeToAt
+	out[u.Name] = mustMakeFormat(u.Namespace, settings) + fmtAddUnionWireLenToAt
+	out[u.Name+hintSafeKey] = makeFormat(u.Namespace, settings) + fmtErrReturn + "\n" + fmtAddUnionWireLenToAtSafe
 	for _, ufd := range u.Fields {
 		if ufd.Struct != nil {
 			st := ufd.Struct
@@ -363,8 +370,8 @@ func (u Union) typeByteReaders(settings GenerateSettings) map[string]string {
 		}
 		if ufd.Message != nil {
 			msg := ufd.Message
-			out[msg.Name] = mustMakeFormat(msg.Namespace, settings) + fmtAddSizeToAt
-			out[msg.Name+hintSafeKey] = makeFormat(msg.Namespace, settings) + fmtErrReturn + "\n" + fmtAddSizeToAt
+			out[msg.Name] = mustMakeFormat(msg.Namespace, settings) + fmtAddMessageWireLenToAt
+			out[msg.Name+hintSafeKey] = makeFormat(msg.Namespace, settings) + fmtErrReturn + "\n" + fmtAddMessageWireLenToAtSafe
 		}
 	}
 	return out
